@@ -717,6 +717,25 @@ where
     match kind {
         2 if body.is_empty() => run_generic(Request::from_parts(parts, ()), cfg, prov, reqs),
         1 => run_generic(Request::from_parts(parts, body.to_vec()), cfg, prov, reqs),
+        3 => {
+            // the caller keeps a handle on the body while it is validated (a retry buffer, an audit copy)
+            let keep = body.clone();
+            let out = run_generic(Request::from_parts(parts, body), cfg, prov, reqs);
+            std::hint::black_box(keep.len());
+            out
+        }
+        4 => {
+            // the body is a window into a larger buffer the caller owns (one read from the socket, sliced)
+            let mut big = Vec::with_capacity(body.len() + 16);
+            big.extend_from_slice(b"<<head>>");
+            big.extend_from_slice(&body);
+            big.extend_from_slice(b"<<tail>>");
+            let big = Bytes::from(big);
+            let window = big.slice(8..8 + body.len());
+            let out = run_generic(Request::from_parts(parts, window), cfg, prov, reqs);
+            std::hint::black_box(big.len());
+            out
+        }
         _ => run_generic(Request::from_parts(parts, body), cfg, prov, reqs),
     }
 }
